@@ -13,6 +13,8 @@ pub struct Violation {
     /// (file, top-level definition index) of the offending element; def = usize::MAX for file-level
     pub file: usize,
     pub def: usize,
+    /// a finer place inside the definition, where the rule is about a part of it: "attr:<directive>"
+    pub anchor: Option<String>,
 }
 
 pub const LINT_NAMES: [&str; 5] = ["All", "Deprecated", "BrokenDocLink", "IncorrectDocComment", "MalformedDocComment"];
@@ -38,11 +40,12 @@ struct Ck<'a> {
     out: Vec<Violation>,
     file: usize,
     def: usize,
+    anchor: Option<String>,
 }
 
 impl<'a> Ck<'a> {
     fn v(&mut self, code: &'static str, rule: &'static str) {
-        self.out.push(Violation { code, rule, file: self.file, def: self.def });
+        self.out.push(Violation { code, rule, file: self.file, def: self.def, anchor: self.anchor.clone() });
     }
 
     fn attrs(&mut self, attrs: &[MAttr], target: Target) {
@@ -54,6 +57,7 @@ impl<'a> Ck<'a> {
             }
             let args = a.arg_values();
             let repeatable = d == "allow";
+            self.anchor = Some(format!("attr:{d}"));
             match d {
                 "allow" => {
                     if args.is_empty() {
@@ -100,13 +104,16 @@ impl<'a> Ck<'a> {
                 }
                 _ => {
                     self.v("E024", "unknown attribute");
+                    self.anchor = None;
                     continue;
                 }
             }
             if !repeatable && !seen.insert(d) {
                 self.v("E026", "attribute not repeated");
             }
+            self.anchor = None;
         }
+        self.anchor = None;
     }
 
     fn ty(&mut self, t: &MType, scope: &str) {
@@ -436,7 +443,7 @@ impl<'a> Ck<'a> {
 /// All rule violations of a program (empty = well-formed). Resolution errors are not rules of this catalogue.
 pub fn check(program: &Program) -> Vec<Violation> {
     let table = Table::build(program);
-    let mut ck = Ck { r: Resolver { program, table: &table }, out: vec![], file: 0, def: usize::MAX };
+    let mut ck = Ck { r: Resolver { program, table: &table }, out: vec![], file: 0, def: usize::MAX, anchor: None };
     // definitions unique across the files of one module
     let mut seen: BTreeMap<String, (usize, usize)> = BTreeMap::new();
     for (fi, f) in program.iter().enumerate() {
